@@ -180,9 +180,13 @@ OutEq(a, b) ==
   /\ Encodable(a.v) = Encodable(b.v)
   /\ Encodable(a.v) => EncVal(a.v) = EncVal(b.v)
 
+\* the reply byte stream; long streams travel in run form (`streamr`, see TBinaryWire)
+ReplyStream(e) == IF "streamr" \in DOMAIN e THEN ExpandRuns(e.streamr) ELSE e.stream
+
 ReplyCheck(e) ==
   IF e.m \notin Methods THEN "harness.method"
-  ELSE LET fr == FrameAt(e.stream, 0)
+  ELSE LET stream == ReplyStream(e)
+           fr == FrameAt(stream, 0)
            presc == IF fr.kind = "frame" THEN Classify(e.m, fr.body) ELSE Unspec
            c1 == OutcomeCheck(e.ref, presc)
            c2 == OutcomeCheck(e.out, presc)
